@@ -5,7 +5,7 @@ rows = []
 for f in sorted(glob.glob("/verif/seeded/C*/*/meta.json")):
     m = json.load(open(f))
     pid, name = f.split("/")[-3], f.split("/")[-2]
-    cr = m["check_result"]
+    cr = m.get("check_result") or {}
     if m.get("status", "").startswith("obsolete"):
         rows.append(f"| {pid}/{name} | (obsolete) {m['status'][:200]} | — | — | — |")
         continue
